@@ -193,6 +193,8 @@ def run_job(cfile, job, workdir):
         cb += ["--object-bits", str(job.object_bits)]
     if job.solver:
         cb += [job.solver] if job.solver.startswith("--") else ["--" + job.solver]
+    elif "--sat-solver" not in job.flags and "--external-sat-solver" not in job.flags:
+        cb += ["--sat-solver", "cadical"]   # default back end: CaDiCaL (MiniSat stalled for minutes on several small instances)
     cb += job.flags
     r.cmds.append(" ".join(cb))
     rc, out, err, dt = _run(cb, job.timeout, workdir, log)
